@@ -148,9 +148,10 @@ fn case_strategy(ctx: &Ctx) -> BoxedStrategy<Case> {
                     if excl_bool && w.any_lit(&|f, _| fty(f) == Some(FT::Bool)) {
                         return false;
                     }
-                    if excl_opt && w.any_lit(&|f, _| td.field(f).map(|x| x.opt).unwrap_or(false)) {
-                        return false;
-                    }
+                    // predicates over optional fields are generated although the finding about null cells is open: a
+                    // null cell makes a row undecided (it may or may not be returned), every other row is judged; only the
+                    // cross-layout comparison leaves the undecided rows out (run_case, NULL_CELLS_UNDECIDED_ACROSS_LAYOUTS)
+                    let _ = excl_opt;
                     if excl_numstr
                         && w.any_lit(&|f, l| {
                             matches!(fty(f), Some(FT::Str) | Some(FT::Enum(_)))
@@ -288,10 +289,17 @@ fn run_case(c: &Case, rep: &mut CaseReport) -> Verdict {
                 );
             }
             // metamorphic: identical answer at every checkpoint (same data, other layout)
+            // open finding: a null cell is answered differently in memory and in a segment - rows the reference cannot decide
+            // (null cell under the predicate) are left out of the comparison between layouts while it is open
+            let decided_only = NULL_CELLS_UNDECIDED_ACROSS_LAYOUTS.load(std::sync::atomic::Ordering::Relaxed);
+            let got_cmp: BTreeSet<i64> = if decided_only { got.iter().filter(|k| !may.contains(k)).cloned().collect() } else { got.clone() };
+            if decided_only && !may.is_empty() {
+                rep.excluded_known += 1;
+            }
             match &first[qi] {
-                None => first[qi] = Some(got.clone()),
+                None => first[qi] = Some(got_cmp.clone()),
                 Some(f0) => {
-                    if *f0 != got {
+                    if *f0 != got_cmp {
                         return Verdict::fail(
                             "meta:layout-divergence",
                             json!({"query": text, "checkpoint": ci, "layout": layout, "first": f0, "now": got, "log": w.db.log}),
@@ -327,6 +335,8 @@ fn run_case(c: &Case, rep: &mut CaseReport) -> Verdict {
     }
     Verdict::Pass
 }
+
+pub static NULL_CELLS_UNDECIDED_ACROSS_LAYOUTS: std::sync::atomic::AtomicBool = std::sync::atomic::AtomicBool::new(false);
 
 pub fn problem_verdict(e: Problem, w: &mut World, rep: &mut CaseReport) -> Verdict {
     match e {
@@ -368,6 +378,7 @@ pub fn run(ctx: &Ctx) -> i32 {
     replay_known(ctx, &stats, &mut report, &replay);
     // exploration (not replay) stays outside the open class "a retired segment id is re-created in one lifetime"
     KNOWN_ID_REUSE.store(ctx.open_any("layout.stale_cache_after_id_reuse"), std::sync::atomic::Ordering::Relaxed);
+    NULL_CELLS_UNDECIDED_ACROSS_LAYOUTS.store(ctx.open("where.optional_field"), std::sync::atomic::Ordering::Relaxed);
     replay_regressions(ctx, &stats, &mut report, &replay);
     let cases = ctx.tier.pick(160, 2400);
     if let Some(f) = explore(ctx, "layouts", || case_strategy(ctx), Explore { cases, max_shrink_iters: ctx.tier.pick(60, 300), lanes: ctx.lanes }, &stats, run_case) {
